@@ -270,6 +270,10 @@ ODD_CONFS = [
     ["acl g0 url_regex foo", "http_access allow g0"],
     ["http_access allow manager", "http_access deny all"],
     ["acl g0 src 127.45.10.1", "cache deny g0", "http_access allow g0"],
+    # ACL names are compared without regard to case (NamedAcls uses CaseInsensitiveSBufHash/Equal)
+    ["acl Foo src 127.45.10.1", "acl FOO src 127.45.10.2", "http_access allow foo", "http_access deny ALL"],
+    ["acl All dst 127.45.0.1", "http_access allow all"],
+    ["acl g0 src 127.45.10.1", "http_access allow !G0 Connect", "http_access deny all"],
 ]
 
 
